@@ -15,8 +15,13 @@ Local Open Scope N_scope.
 Theorem C10_layout : C10_layout_stmt.
 Proof. exact LayoutFacts.layout_views_ok. Qed.
 
+(* under nl <= hl, which MatrixLayout::new asserts (`assert!(haystack_len >= needle_len)`) before any layout exists:
+   the counts are translated from matrix.rs, N subtraction truncates like usize subtraction would underflow, so
+   equivalent spellings (`hl + 1 - nl`, `hl - nl + 1`) coincide exactly on that domain.  C10_layout has the same
+   hypothesis. *)
 Theorem C10_view_counts :
-  forall hl nl, view_count_haystack hl nl = layout_count_haystack hl nl /\
+  forall hl nl, nl <= hl ->
+                view_count_haystack hl nl = layout_count_haystack hl nl /\
                 view_count_bonus hl nl = layout_count_bonus hl nl /\
                 view_count_rows hl nl = layout_count_rows hl nl /\
                 view_count_score hl nl = layout_count_score hl nl /\
